@@ -79,3 +79,88 @@ def split_walk(walk, n):
     """Split a long walk into chunks is not possible without re-establishing state; helper that
     returns the walk unchanged (kept for symmetry)."""
     return [walk]
+
+
+def online_cover(g, init, apply_fn, project, max_steps=4000, rnd=None, random_steps=0):
+    """Conformance walk under a nondeterministic (over-approximating) specification graph.
+
+    The walker drives the real system: it picks an action label at the current spec state, applies
+    it (`apply_fn(name, args)` returns the real system's projected abstract state), and moves to the
+    successor whose projection (`project(spec_state)`) matches what the real system did.  It keeps
+    going until every (state, label) pair reachable *through transitions the real system actually
+    takes* has been tried once, then optionally takes `random_steps` random steps.  Returns a dict with
+    steps, left_model (list of (state, label, projection) where no successor matched)."""
+    by_label = {}
+    for ei, (s, d, name, args) in enumerate(g.edges):
+        by_label.setdefault(s, {}).setdefault((name, args), []).append(d)
+    tried = set()
+    observed = {}
+    cur = init
+    steps = 0
+    left = []
+
+    def do(lab):
+        nonlocal cur, steps
+        proj = apply_fn(lab[0], lab[1])
+        steps += 1
+        tried.add((cur, lab))
+        cands = by_label.get(cur, {}).get(lab, [])
+        match = [d for d in cands if project(g.states[d]) == proj]
+        if not match:
+            left.append((cur, lab, proj))
+            # re-synchronise on any state with the observed projection (prefer a successor's sibling)
+            pool = [sid for sid, st in g.states.items() if project(st) == proj]
+            if not pool:
+                return False
+            cur = pool[0]
+            return True
+        observed[(cur, lab)] = match[0]
+        cur = match[0]
+        return True
+
+    while steps < max_steps:
+        labs = list(by_label.get(cur, {}).keys())
+        untried = [lab for lab in labs if (cur, lab) not in tried]
+        if untried:
+            if not do(untried[0]):
+                break
+            continue
+        # BFS through observed (real) transitions to a state with an untried label
+        prev = {cur: None}
+        dq = deque([cur])
+        target = None
+        while dq and target is None:
+            s = dq.popleft()
+            for lab in by_label.get(s, {}):
+                if (s, lab) not in tried:
+                    target = s
+                    break
+                d = observed.get((s, lab))
+                if d is not None and d not in prev:
+                    prev[d] = (s, lab)
+                    dq.append(d)
+        if target is None:
+            break
+        path = []
+        s = target
+        while prev[s] is not None:
+            ps, lab = prev[s]
+            path.append((ps, lab))
+            s = ps
+        ok = True
+        for ps, lab in reversed(path):
+            if cur != ps:
+                break  # the real system went elsewhere: re-plan
+            if not do(lab):
+                ok = False
+                break
+        if not ok:
+            break
+    covered = len(tried)
+    for _ in range(random_steps):
+        labs = list(by_label.get(cur, {}).keys())
+        if not labs or rnd is None:
+            break
+        if not do(rnd.choice(labs)):
+            break
+    return {"steps": steps, "pairs_tried": covered, "left_model": left}
